@@ -8,7 +8,7 @@ CONSTANTS
   TupleVals <- ValsOne
   MaxTuple = 0
   DictKeys <- KeysFull
-  DictVals <- ValsKeyD
+  DictVals <- ValsOne
   MaxDict = 1
   BugFlag = "none"
 INVARIANT Soundness
